@@ -7,7 +7,7 @@ PID = "C17"
 ENGINE = "kmc-E3-sched + kmc-E2-bfs + kmc-E1-space"
 RULE = ("ParallelModel: n=1..4 (quick) / 5 (thorough) gated branches x max_workers in {1..n, None} x EVERY feasible completion order (forced through gates on "
         "the real ThreadPoolExecutor, each schedule replayed twice) x {no aggregator, order-sensitive aggregator} x three ways of declaring the branches; "
-        "Sequential/Configurable models: BFS over every add_step/remove_step/run history up to depth 4 (6) against a Python-list model; fixed pipelines "
+        "Sequential/Configurable models: BFS over every add_step/remove_step/run history up to depth 4 (7) against a Python-list model; BranchingModel: BFS over every add/remove/get/default/run history up to depth 5 (7) against an ordered-dictionary model (state key = canonical state + set of operations applied); fixed pipelines "
         "(DeepJSCC, channel-code, Wyner-Ziv), branching (all 2^n condition assignments), feedback (1..5 rounds), multiple access (every assignment of "
         "users to encoder instances); a state is a schedule / a canonical model state / a configuration; non-trivial = schedule differs from declared order")
 ASSUME = ["executor model: tasks start in submission order whenever fewer than max_workers are running (cross-checked against a TLA+ model with TLC in the thorough tier)",
@@ -18,7 +18,7 @@ INPROCESS_THREADS = True
 
 def bounds(tier):
     q = tier == "quick"
-    return {"parallel_branches": "1..4" if q else "1..5", "workers": "1..n and default", "history_depth": 4 if q else 6, "pipeline_stages": "0..6",
+    return {"parallel_branches": "1..4" if q else "1..5", "workers": "1..n and default", "history_depth": 4 if q else 7, "branching_history_depth": 5 if q else 7, "pipeline_stages": "0..6",
             "branching_conditions": "all 2^n, n<=4", "feedback_rounds": "1..5", "mac_users": "1..4"}
 
 
@@ -182,7 +182,7 @@ def seq_bfs_case(p, res):
     from kaira.models.base import BaseModel
     from kaira.models.deepjscc import DeepJSCCModel
     cls = {"SequentialModel": SequentialModel, "ConfigurableModel": ConfigurableModel, "DeepJSCCModel": DeepJSCCModel}[p["cls"]]
-    depth = 4 if p["tier"] == "quick" else 6
+    depth = 4 if p["tier"] == "quick" else 7
     cfg = p["cls"]
 
     def module_stage(base, sid, sink):
@@ -378,12 +378,12 @@ def fixed_case(p, res):
 
 # ----------------------------------------------------------------------------- branching: histories of add / remove / default / inspect / run
 def branching_bfs_case(p, res):
-    """every history (depth 5 [6]) of add_branch(name, truth, model), remove_branch(name), set_default_branch, get_branch(name) and run on one
+    """every history (depth 5 [7]) of add_branch(name, truth, model), remove_branch(name), set_default_branch, get_branch(name) and run on one
     BranchingModel object, against an ordered-dictionary model: the run takes exactly the first registered branch whose condition holds NOW
     (a name that was removed and registered again carries its new condition and model, and comes last)"""
     from kaira.models.base import BaseModel
     from kaira.models.generic.branching import BranchingModel
-    depth = 5 if p["tier"] == "quick" else 6
+    depth = 5 if p["tier"] == "quick" else 7
 
     class M(BaseModel):
         def __init__(self, tag, sink):
